@@ -193,12 +193,13 @@ func TestExpressions(t *testing.T) {
 		embed := ""
 		typ := reflect.TypeOf(want)
 		// an integral float result (7/1, 2000000/2) may also land in an int field
-		if f, ok := want.(float64); ok && f == math.Trunc(f) && math.Abs(f) < 1<<53 && rapid.Bool().Draw(t, "intfield") {
+		embedIt := rapid.IntRange(0, 4).Draw(t, "embedded") == 0
+		if f, ok := want.(float64); ok && !embedIt && f == math.Trunc(f) && math.Abs(f) < 1<<53 && rapid.Bool().Draw(t, "intfield") {
 			typ = reflect.TypeOf(0)
 			want = int(f)
 		}
 		var embeddedFloat *float64
-		if rapid.IntRange(0, 4).Draw(t, "embedded") == 0 {
+		if embedIt {
 			embed = "pre-"
 			typ = reflect.TypeOf("")
 			if f, ok := want.(float64); ok {
